@@ -112,11 +112,44 @@ func rawKey(s string) string   { return "r:" + s }
 func camelKey(s string) string { return "c:" + strcase.ToCamel(s) }
 func lowerKey(s string) string { return "l:" + strings.ToLower(strings.ReplaceAll(s, "_", "")) }
 
+// message-typed scalars of other packages: j5s word, full type name, (j5.ext.v1.field) kind as compiled
+var extTypes = []struct{ j5, full, kind string }{
+	{"timestamp", "google.protobuf.Timestamp", "timestamp"},
+	{"date", "j5.types.date.v1.Date", ""},
+	{"decimal", "j5.types.decimal.v1.Decimal", ""},
+	{"any", "j5.types.any.v1.Any", "any"},
+}
+
 func genScalarField(r *vh.Rand, name string) uField {
 	t := vh.Pick(r, scalars)
 	u := uField{Name: name, J5Type: t.j5, PType: t.ptype, J5Kind: t.kind, Required: r.Chance(25), Bang: r.Bool(), SayFalse: r.Chance(20)}
+	if r.Chance(18) {
+		x := vh.Pick(r, extTypes)
+		u.J5Type, u.PType, u.J5Kind, u.Ext = x.j5, 11, x.kind, x.full
+	}
 	if !u.Required && r.Chance(15) {
 		u.Optional = true
+	}
+	return u
+}
+
+// genAnyField: every field type of the schema language that is not a reference: scalars, the
+// message-typed scalars, keys, and arrays / maps of those.
+func genAnyField(r *vh.Rand, name string) uField {
+	u := genScalarField(r, name)
+	isKey := r.Chance(12)
+	if isKey {
+		u = genKeyTyped(r, name)
+	}
+	if r.Chance(22) {
+		if isKey {
+			// the item type key:<format>: not a schema.key of the field itself
+			u.J5Type = vh.Pick(r, []string{"key", "key:id62", "key:uuid"})
+			u.Key, u.KeyFmt = false, ""
+		}
+		u.Container = vh.Pick(r, []string{"array", "array", "map"})
+		// an optional array / map compiles to a proto3-optional repeated field (known finding)
+		u.Optional = !u.Required && r.Chance(4)
 	}
 	return u
 }
@@ -140,7 +173,7 @@ func genFields(r *vh.Rand, lo, hi int, reserved ...string) []uField {
 		if r.Chance(20) {
 			out = append(out, genKeyTyped(r, name))
 		} else {
-			out = append(out, genScalarField(r, name))
+			out = append(out, genAnyField(r, name))
 		}
 	}
 	return out
@@ -204,7 +237,7 @@ func genEntityOpt(r *vh.Rand, second bool, forcedName string) *entityDecl {
 				k.Tenant = ptr("owner")
 			}
 		} else {
-			k.uField = genScalarField(r, name)
+			k.uField = genAnyField(r, name)
 		}
 		k.Shard = r.Chance(25)
 		d.Keys = append(d.Keys, k)
@@ -281,7 +314,7 @@ func genEntityOpt(r *vh.Rand, second bool, forcedName string) *entityDecl {
 			}
 			var parts []string
 			for _, f := range m.Request {
-				if r.Chance(50) {
+				if f.Container == "" && f.Ext == "" && r.Chance(50) {
 					if r.Chance(40) {
 						parts = append(parts, vh.Pick(r, []string{"do", "items", "sub_path", "x"}))
 					}
@@ -351,7 +384,7 @@ func genEntityOpt(r *vh.Rand, second bool, forcedName string) *entityDecl {
 			oneofName = vh.Pick(r, []string{"Choice", "Payload", "Either"}) + d.schemaSuffix()
 			var opts []uField
 			for _, f := range genFields(r, 1, 3) {
-				f.Required, f.Optional, f.SayFalse = false, false, false
+				f.Required, f.Optional, f.SayFalse, f.Container = false, false, false, ""
 				opts = append(opts, f)
 			}
 			if pos := r.Intn(len(d.Schemas) + 1); true {
@@ -372,6 +405,12 @@ func genEntityOpt(r *vh.Rand, second bool, forcedName string) *entityDecl {
 				u.Obj, u.RefKind, u.PType, u.J5Kind = enumName, "enum", 14, "enum"
 			case oneofName != "" && r.Chance(25):
 				u.Obj, u.RefKind, u.J5Kind = oneofName, "oneof", "oneof"
+			}
+			if r.Chance(35) {
+				u.Container = "array"
+				if u.RefKind != "oneof" && r.Chance(40) {
+					u.Container = "map"
+				}
 			}
 			return u
 		}
@@ -488,7 +527,7 @@ var negClasses = []negClass{
 	}},
 	{"missing-path-field", 5, func(r *vh.Rand, d *entityDecl) {
 		// visitServiceMethodNode: a ":name" path part must be a request field
-		m := eMethod{Name: "MissingParam", Verb: 2, Path: vh.Pick(r, []string{":nope", "x/:nope/y", ":a/:nope"}), Request: []uField{genScalarField(r, "a")}}
+		m := eMethod{Name: "MissingParam", Verb: 2, Path: vh.Pick(r, []string{":nope", "x/:nope/y", ":a/:nope"}), Request: []uField{plainString("a")}}
 		if len(d.Commands) == 0 {
 			d.Commands = append(d.Commands, eCommand{})
 		}
@@ -620,11 +659,11 @@ const c17Shard = 25
 func runC17(cfg *vh.Config) error {
 	log.SetOutput(io.Discard) // the compiler logs every walker error
 	res := vh.NewResult("C17", cfg.Seed)
-	res.Rule = "entity declarations: name casings (fixed list incl. trailing capitals/acronyms/digits/underscores + generated identifiers), 1-4 keys (key-typed id62/uuid/plain with primary/tenant, or scalar) x shard flag x required, 0-4 data fields over 9 scalar types + keys, 1-4 statuses (+ the UNSPECIFIED-first and prefixed-name edge cases), foreign keys, optional fields, methods without response, objects declared in the entity block and object references to them / to the generated Keys and Data, 0-3 events with 0-3 fields, 0-2 command services (default/named, base path (also with leading/trailing/double slashes, cleaned by path.Join), own options block with audience/default auth, 0-2 methods with path parameters), boolean attributes also spelled out as false (primary/shardKey/required/optional/eventsInGet = false), 0-2 summaries (default/named), optional query settings; 20% of the files declare two entities; malformed: unknown default status, duplicate summary, optional+required field, path parameter that is not a request field, dangling object reference; plus the strcase stream; non-trivial = distinct declaration text"
+	res.Rule = "entity declarations: name casings (fixed list incl. trailing capitals/acronyms/digits/underscores + generated identifiers), 1-4 keys (key-typed id62/uuid/plain with primary/tenant/foreign, or ANY other field type) x shard flag x required; keys/data/event/request/response/summary/object fields over every field type of the schema language: 9 scalars, timestamp/date/decimal/any, bytes, keys, object/oneof/enum references, arrays and maps of all of these (3-4% optional arrays/maps: known finding); 1-4 statuses (+ UNSPECIFIED-first and prefixed-name edge cases), 0-3 events, 0-2 command services (default/named, base paths with leading/trailing/double slashes, options blocks, 0-2 methods with path parameters), boolean attributes also spelled out as false, 0-2 summaries, objects/oneofs/enums declared in the entity block, optional query settings; names the expansion itself adds are NOT avoided (keys page/query/metadata/data/status/event, summary field upsert, event Type: known findings); 20% of the files declare two entities; zero-keys (outside the quantifier, accepted); malformed stream: 21 fault classes round-robin (walker errors, conversion errors, parser validation, 15 duplicate-symbol classes, a quarter of them in the second entity of a file), acceptance compared both ways and the error class compared; plus the strcase stream; non-trivial = distinct declaration text"
 	cf := &vh.CasesFile{
-		Header: "From Coq Require Import String List NArith.\nFrom J5V.lib Require Import Outcome.\nFrom J5V.model Require Import Entity EntityCorr.",
+		Header: "From Coq Require Import String List NArith.\nFrom J5V.lib Require Import Outcome.\nFrom J5V.model Require Import Entity EntityCorr.\nFrom J5V.proofs Require Import EntitySpecCorr.",
 		Type:   "c17case",
-		Check:  "c17_check",
+		Check:  "c17_check_adm",
 	}
 	distinct := vh.Distinct{}
 	caseNo := 0
@@ -665,13 +704,14 @@ func runC17(cfg *vh.Config) error {
 		if c.errc == 6 && r.Chance(25) {
 			// the link step sees the whole file: the fault in the second entity of a file
 			first := genEntityOpt(r, false, "")
-			for first.pathKeyReserved() || first.summaryUpsert() || first.eventNamedType() {
+			clash := func() bool {
+				a, b := squash(first.Name), squash(d.Name)
+				return a == "" || strings.HasPrefix(a, b) || strings.HasPrefix(b, a)
+			}
+			for first.pathKeyReserved() || first.summaryUpsert() || first.eventNamedType() || clash() {
 				first = genEntityOpt(r, false, "")
 			}
 			first.Commands, first.Summaries = nil, nil
-			for squash(first.Name) == "" || strings.HasPrefix(squash(first.Name), squash(d.Name)) || strings.HasPrefix(squash(d.Name), squash(first.Name)) {
-				first.Name = "Zq" + first.Name
-			}
 			first.Pkg = d.Pkg
 			decls = append(decls, &fileDecl{Ents: []*entityDecl{first, d}})
 		} else {
@@ -901,6 +941,8 @@ func errClass(err error) string {
 		return "status not found in entity"
 	case strings.Contains(s, "duplicate summary"):
 		return "duplicate summary name"
+	case strings.Contains(s, "belongs in a oneof and must be optional") || strings.Contains(s, "must be declared before synthetic oneofs"):
+		return "proto3-optional repeated field (optional array or map)"
 	case strings.Contains(s, "must contain at least one field declaration"):
 		return "proto oneof without members"
 	case strings.Contains(s, "unknown enum value"):
